@@ -126,6 +126,7 @@ def main(argv=None):
         'violation_kinds': {k: v[0] for k, v in rep.viols.items()},
         'bounds': mod.bounds(ctx.tier) if hasattr(mod, 'bounds') else {},
         'harness_errors': errors[:5],
+        'slowest_cases_s': [list(x) for x in getattr(rep, 'slowest', [])],
     }
     for k, v in rep.extra.items():
         coverage.setdefault(k, dict(v) if hasattr(v, 'items') else v)
